@@ -41,6 +41,13 @@ SIDE_SPEC = {"C15": "Macro.tla", "C12": "W3C.tla", "C19": "Reporters.tla", "C20"
 REF = {p: "DESIGN.md section 5, " + p for p in TEXT}
 
 
+CHANNEL = {"C01", "C04", "C07", "C08", "C09"}
+CHANNEL_NOTE = (" In addition spec/Channel.tla (the command channel at the grain of single ring operations) is model checked on every run: "
+                "safety for all interleavings, liveness under fairness (what enters a ring is processed without a further call, flush() returns also "
+                "when it overlaps a cycle, a dead thread's receiver is dropped) and the refinement of Fastrace.tla's drain / check grain; the hook events "
+                "of every steered run are validated against it by spec/TraceChan.tla (coverage.channel_model / channel_conformance in the evidence).")
+
+
 def main():
     checks = []
     for p in props:
@@ -59,6 +66,9 @@ def main():
             ))
     for c in checks:
         c["engine"] = "fastrace-side" if c["property_id"] in SIDE_SPEC else "fastrace-tla"
+        if c["property_id"] in CHANNEL:
+            c["level_note"] += CHANNEL_NOTE
+            c["technique"] += " + TLC on Channel.tla (safety, liveness under fairness, refinement) + TLC trace validation of hook events (TraceChan.tla)"
         if c["property_id"] in SIDE_SPEC:
             c["level_note"] = ("The TLA+ module is the oracle and the exhaustive class enumerator; the Rust code is only observed, not proved. Trusted: the side harness's "
                                "concretisation of classes and its independent decoders (sideharness/src/wire.rs).")
@@ -76,7 +86,7 @@ def main():
                    source_commits=hook_commits, add_only=True),
         engines=[dict(name="fastrace-side", path="spec/side/*.tla, sideharness/, lib/side.py", serves_properties=sorted(SIDE_SPEC),
                       kind_free_text="TLA+ side specifications: TLC enumerates cases / model checks the transcribed algorithm, the real code runs the cases, TLC validates the observations"),
-                 dict(name="fastrace-tla", path="spec/Fastrace.tla, spec/Abs.tla, spec/TraceAbs.tla, harness/, lib/",
+                 dict(name="fastrace-tla", path="spec/Fastrace.tla, spec/Abs.tla, spec/TraceAbs.tla, spec/Channel.tla, spec/TraceChan.tla, harness/, lib/",
                       serves_properties=sorted(claimed - set(SIDE_SPEC)),
                       kind_free_text="explicit TLA+ specification checked with TLC; conformance by steered replay of TLC behaviours and TLC trace validation")],
         checks=checks,
